@@ -71,6 +71,8 @@ fn main() {
                 "mtu" => engines::mtu::replay(&v),
                 "hostile" => engines::hostile::replay(&v),
                 "catchup" => engines::catchup::replay(&v),
+                "listeners" => engines::listeners::replay(&v),
+                "select" => engines::select::replay(&v),
                 e => Err(format!("unknown engine {e}")),
             };
             match r {
@@ -111,6 +113,12 @@ fn run_check(prop: &str, tier: Tier) -> i32 {
         }
         "C18" => {
             check.parts.extend(engines::catchup::run(tier, started));
+        }
+        "C15" => {
+            check.parts.extend(engines::listeners::run(tier, started));
+        }
+        "C17" => {
+            check.parts.extend(engines::select::run(tier));
         }
         "C09" => {
             check.parts.extend(engines::hostile::run(tier, started));
